@@ -29,6 +29,8 @@ V = {
     "multibound": 'pub trait B0 {} pub trait B1 {} pub trait B2 {} pub trait B3 {}\n#[::entrait::entrait(pub A8)]\npub mod m8 {\n    use super::*;\n    pub fn a(deps: &(impl B0 + B1 + B3)) {}\n    pub fn b(deps: &(impl B1 + B2 + B0)) {}\n    pub fn c<D: B3 + B2>(deps: &D) where D: B0 + B3 {}\n}',
     "mocks_gated": '#[::entrait::entrait(pub A11, mock_api = A11Mock, unimock, mockall)]\npub fn a11(deps: &impl ::core::any::Any, x: i64) -> i64 { x }',
     "borrow": '#[::entrait::entrait(delegate_by = Borrow)]\npub trait A10 { fn m(&self, a: i64) -> i64; }',
+    # options that have no effect on the item they are given for (nothing async here)
+    "noop_opts": '#[::entrait::entrait(A12, ?Send)]\nfn a12(deps: &impl ::core::any::Any, x: i64) -> i64 { x }\n#[::entrait::entrait(pub A13, ?Send, mockall = false, unimock = false)]\npub mod m13 {\n    pub fn x(deps: &impl ::core::any::Any) {}\n}',
     "rename": '#[::entrait::entrait(A9)]\nfn a9(deps: &impl ::core::any::Any, a9: i64, a9_: i64, a9__: i64, (u, v): (u8, u8)) {}',
 }
 VN = list(V)
